@@ -22,6 +22,7 @@ type acc struct {
 	dist     []string
 	requests int
 	endRe    int
+	integ    int // argument-integrity probes
 	failed   bool
 	// sampleAt = k > 0: the k-th non-trivial triple of this case is written out as a sample (set by
 	// main for a few designated cases, so that the samples do not depend on scheduling).
@@ -88,6 +89,7 @@ func (a *acc) flush() {
 	}
 	a.r.Count("totals", "output requests checked (value, pulls)", a.requests)
 	a.r.Count("totals", "Next calls after the end checked", a.endRe)
+	a.r.Count("totals", "argument-integrity probes (caller's array incl. sentinels unchanged)", a.integ)
 	for _, d := range a.dist {
 		a.r.Distinct(d)
 	}
@@ -317,7 +319,8 @@ func runFlavours[U any](a *acc, s *single[U], fl []flavourMk[U]) {
 	if s.slc != nil {
 		var got []U
 		a.arm(len(s.src))
-		if pan := vkit.Try(func() { got = s.slc(slices.Clone(s.src)) }); pan != nil {
+		gsrc, chkSrc, _ := guardInts(s.src)
+		if pan := vkit.Try(func() { got = s.slc(gsrc) }); pan != nil {
 			a.fail(panicKind(pan), "xslices", s.op, fmt.Sprintf("xslices.%s(%s) over %v panicked: %s", s.op, s.param, brief(s.src), panicMsg(pan)), s.witness(0))
 			return
 		}
@@ -325,6 +328,11 @@ func runFlavours[U any](a *acc, s *single[U], fl []flavourMk[U]) {
 			w := s.witness(0)
 			w["got"] = got
 			a.fail("value", "xslices", s.op, fmt.Sprintf("xslices.%s(%s) over %v = %v, reference %v", s.op, s.param, brief(s.src), got, s.ref.out), w)
+			return
+		}
+		a.integ++
+		if msg := chkSrc(); msg != "" {
+			a.fail("argument-modified", "xslices", s.op, fmt.Sprintf("xslices.%s(%s) over %v (a sub-slice with spare capacity): %s", s.op, s.param, brief(s.src), msg), s.witness(0))
 			return
 		}
 		outs = append(outs, flav{"xslices", got})
@@ -649,7 +657,8 @@ func runRuns(a *acc, src []int, same func(a, b int) bool, param string, slc func
 	if slc != nil {
 		var got [][]int
 		a.arm(n)
-		if pan := vkit.Try(func() { got = slc(slices.Clone(src)) }); pan != nil {
+		gsrc, chkSrc, _ := guardInts(src)
+		if pan := vkit.Try(func() { got = slc(gsrc) }); pan != nil {
 			a.fail(panicKind(pan), "xslices", "Runs", fmt.Sprintf("xslices.Runs(%s) over %v panicked: %s", param, brief(src), panicMsg(pan)), map[string]any{"source": src, "param": param})
 			return
 		}
@@ -657,6 +666,11 @@ func runRuns(a *acc, src []int, same func(a, b int) bool, param string, slc func
 		if !slices.EqualFunc(got, runs, func(x, y []int) bool { return slices.Equal(x, y) }) {
 			a.fail("value", "xslices", "Runs", fmt.Sprintf("xslices.Runs(%s) over %v = %v, reference (and iterator.Runs, stream.Runs) %v", param, brief(src), got, runs),
 				map[string]any{"source": src, "param": param, "reference_runs": runs, "got": got})
+			return
+		}
+		a.integ++
+		if msg := chkSrc(); msg != "" {
+			a.fail("argument-modified", "xslices", "Runs", fmt.Sprintf("xslices.Runs(%s) over %v (a sub-slice with spare capacity): %s", param, brief(src), msg), map[string]any{"source": src})
 			return
 		}
 	}
@@ -668,6 +682,106 @@ func runRuns(a *acc, src []int, same func(a, b int) bool, param string, slc func
 	}
 }
 
+// takePolicy says how many items of an inner run of length l the consumer reads before it asks the
+// outer for the next run.
+type takePolicy struct {
+	name string
+	take func(l int) int
+}
+
+var takePolicies = []takePolicy{
+	{"nothing", func(l int) int { return 0 }},
+	{"the first item", func(l int) int { return 1 }},
+	{"two items", func(l int) int { return min(2, l) }},
+	{"all but the last item", func(l int) int { return l - 1 }},
+}
+
+// runRunsPartial: the consumer leaves inner runs undrained and advances the outer. The library
+// skips the rest of the abandoned run itself (existing behaviour, relied upon by callers although
+// the doc says the inner "should" be drained): the next inner must start at the head of the next
+// reference run, the number of runs must be the reference's, and skipping needs the source only
+// through the first item of the next run. Stream flavour: the abandoned inner is NOT closed by the
+// consumer (the outer closes it when it advances).
+func runRunsPartial(a *acc, src []int, same func(a, b int) bool, param string, pol takePolicy) {
+	if a.failed {
+		return
+	}
+	a.evals++
+	a.count("triples by operation", "Runs", 1)
+	a.count("Runs with undrained inner runs: items read of each run before the outer advances", pol.name, 1)
+	runs := refRuns(src, same)
+	n := len(src)
+	same = guardEq(a, same)
+	for _, fl := range runsFlavours {
+		kind, what, where := "", "", ""
+		pan := vkit.Try(func() {
+			a.arm(n)
+			outer, pulls, closeFn := fl.mk(a, src, same)
+			start := 0
+			for r, run := range runs {
+				where = fmt.Sprintf("outer Next %d", r+1)
+				inner, _, ok := outer()
+				a.requests++
+				if !ok {
+					kind, what = "early-end", fmt.Sprintf("outer Next %d reported the end, reference has %d runs %v", r+1, len(runs), runs)
+					return
+				}
+				if p := pulls(); p > start+1 {
+					kind, what = "overpull", fmt.Sprintf("after outer Next %d the source had been asked %d times; skipping the abandoned run and finding the head of run %d (item %d) needs %d", r+1, p, r+1, start, start+1)
+					return
+				}
+				t := pol.take(len(run))
+				for k := 0; k < t; k++ {
+					where = fmt.Sprintf("run %d inner Next %d", r+1, k+1)
+					x, ok := inner()
+					a.requests++
+					if !ok {
+						kind, what = "run-boundary", fmt.Sprintf("run %d ended after %d items, reference run is %v (runs %v)", r+1, k, run, runs)
+						return
+					}
+					if x != run[k] {
+						kind, what = "run-boundary", fmt.Sprintf("run %d item %d is %d, reference %d: run %d should be %v (runs %v)", r+1, k+1, x, run[k], r+1, run, runs)
+						return
+					}
+					if p := pulls(); p > start+k+1 {
+						kind, what = "overpull", fmt.Sprintf("after run %d item %d the source had been asked %d times, needed %d", r+1, k+1, p, start+k+1)
+						return
+					}
+				}
+				start += len(run)
+			}
+			for t := 0; t < 4; t++ {
+				where = fmt.Sprintf("outer Next %d (end expected)", len(runs)+1+t)
+				_, _, ok := outer()
+				a.requests++
+				if t > 0 {
+					a.endRe++
+				}
+				if ok {
+					kind = "run-boundary"
+					if t > 0 {
+						kind = "end-unstuck"
+					}
+					what = fmt.Sprintf("outer Next %d returned another run, reference has %d runs %v", len(runs)+1+t, len(runs), runs)
+					return
+				}
+			}
+			closeFn()
+		})
+		if pan != nil {
+			kind, what = panicKind(pan), fmt.Sprintf("panic at %s: %s", where, panicMsg(pan))
+		}
+		if kind != "" {
+			a.fail(kind, fl.name, "Runs", fmt.Sprintf("%s.Runs(%s) over %v, consumer reads %s of each run and then advances the outer: %s", fl.name, param, brief(src), pol.name, what),
+				map[string]any{"source": src, "param": param, "reference_runs": runs, "read_of_each_run": pol.name, "at": where})
+			return
+		}
+	}
+	if n > 0 {
+		a.dist = append(a.dist, "Runs-undrained|"+pol.name+"|"+param+"|"+fmt.Sprint(src))
+	}
+}
+
 // ---------------------------------------------------------------------------------------------
 // Flatten / FlattenSlices / Join: several sources.
 
@@ -676,15 +790,18 @@ type multiHandle struct {
 	outerPulls func() int      // nil: no outer source (Join)
 	partPulls  func(i int) int // nil: parts are not observable (FlattenSlices)
 	close      func()
+	integrity  func() string // nil, or: "" while the caller's argument array is untouched (integrity.go)
+	observe    func()        // nil, or: records not-judged observations at the end of the run
 }
 
 type multiFlavour struct {
 	pkg, op string
+	via     string // how the sources are handed over (shown in messages)
 	mk      func(a *acc, parts [][]int) multiHandle
 }
 
 var multiFlavours = []multiFlavour{
-	{"iterator", "Flatten", func(a *acc, parts [][]int) multiHandle {
+	{"iterator", "Flatten", "", func(a *acc, parts [][]int) multiHandle {
 		probes := make([]*vkit.ProbeIter[int], len(parts))
 		its := make([]iterator.Iterator[int], len(parts))
 		for i, p := range parts {
@@ -700,21 +817,39 @@ var multiFlavours = []multiFlavour{
 			close:      func() {},
 		}
 	}},
-	{"iterator", "Join", func(a *acc, parts [][]int) multiHandle {
+	{"iterator", "Flatten", " over iterator.Slice(args), args a sub-slice with spare capacity", func(a *acc, parts [][]int) multiHandle {
 		probes := make([]*vkit.ProbeIter[int], len(parts))
 		its := make([]iterator.Iterator[int], len(parts))
 		for i, p := range parts {
 			probes[i] = newIterProbe(a, p)
 			its[i] = probes[i]
 		}
-		f := iterator.Join(its...)
+		args, chk := guardRefs(its, iterSentinel)
+		f := iterator.Flatten[int](iterator.Slice(args))
 		return multiHandle{
 			next:      f.Next,
 			partPulls: func(i int) int { return capPulls(probes[i].Pulls.Load(), len(parts[i])) },
 			close:     func() {},
+			integrity: chk,
 		}
 	}},
-	{"stream", "Flatten", func(a *acc, parts [][]int) multiHandle {
+	{"iterator", "Join", " (args a sub-slice with spare capacity)", func(a *acc, parts [][]int) multiHandle {
+		probes := make([]*vkit.ProbeIter[int], len(parts))
+		its := make([]iterator.Iterator[int], len(parts))
+		for i, p := range parts {
+			probes[i] = newIterProbe(a, p)
+			its[i] = probes[i]
+		}
+		args, chk := guardRefs(its, iterSentinel)
+		f := iterator.Join(args...)
+		return multiHandle{
+			next:      f.Next,
+			partPulls: func(i int) int { return capPulls(probes[i].Pulls.Load(), len(parts[i])) },
+			close:     func() {},
+			integrity: chk,
+		}
+	}},
+	{"stream", "Flatten", "", func(a *acc, parts [][]int) multiHandle {
 		probes := make([]*vkit.ProbeStream[int], len(parts))
 		sts := make([]stream.Stream[int], len(parts))
 		for i, p := range parts {
@@ -730,10 +865,15 @@ var multiFlavours = []multiFlavour{
 			close:      f.Close,
 		}
 	}},
-	{"stream", "FlattenSlices", func(a *acc, parts [][]int) multiHandle {
+	{"stream", "FlattenSlices", " (inner slices are sub-slices with spare capacity)", func(a *acc, parts [][]int) multiHandle {
+		// Every inner slice is a sub-slice of a guarded array. FlattenSlices may not touch anything
+		// outside the slices it was given. What it does to the items INSIDE a slice it has consumed
+		// (the implementation zeroes them) is recorded, not judged: the documentation is silent.
 		cp := make([][]int, len(parts))
+		outside := make([]func() string, len(parts))
+		inside := make([]func() string, len(parts))
 		for i, p := range parts {
-			cp[i] = slices.Clone(p) // FlattenSlices zeroes what it has handed out
+			cp[i], inside[i], outside[i] = guardInts(p)
 		}
 		outer := newStreamProbe(a, "outer", cp)
 		f := stream.FlattenSlices[int](outer)
@@ -741,20 +881,42 @@ var multiFlavours = []multiFlavour{
 			next:       streamNext(f),
 			outerPulls: func() int { return capPulls(outer.Calls.Load(), len(parts)) },
 			close:      f.Close,
+			integrity: func() string {
+				for i := range outside {
+					if msg := outside[i](); msg != "" {
+						return fmt.Sprintf("inner slice %d: %s", i, msg)
+					}
+				}
+				return ""
+			},
+			observe: func() {
+				for i := range inside {
+					if len(parts[i]) == 0 {
+						continue
+					}
+					if inside[i]() != "" {
+						a.count("observed, not judged: items of the inner slices after stream.FlattenSlices consumed them", "overwritten (zeroed) in the producer's slice", 1)
+					} else {
+						a.count("observed, not judged: items of the inner slices after stream.FlattenSlices consumed them", "left intact", 1)
+					}
+				}
+			},
 		}
 	}},
-	{"stream", "Join", func(a *acc, parts [][]int) multiHandle {
+	{"stream", "Join", " (args a sub-slice with spare capacity)", func(a *acc, parts [][]int) multiHandle {
 		probes := make([]*vkit.ProbeStream[int], len(parts))
 		sts := make([]stream.Stream[int], len(parts))
 		for i, p := range parts {
 			probes[i] = newStreamProbe(a, fmt.Sprintf("part%d", i), p)
 			sts[i] = probes[i]
 		}
-		f := stream.Join(sts...)
+		args, chk := guardRefs(sts, streamSentinel)
+		f := stream.Join(args...)
 		return multiHandle{
 			next:      streamNext(f),
 			partPulls: func(i int) int { return capPulls(probes[i].Calls.Load(), len(parts[i])) },
 			close:     f.Close,
+			integrity: chk,
 		}
 	}},
 }
@@ -798,10 +960,19 @@ func runMulti(a *acc, parts [][]int, slcJoin func(parts [][]int) []int) {
 						}
 					}
 				}
+				if h.integrity != nil {
+					a.integ++
+					if msg := h.integrity(); msg != "" {
+						kind, what = "argument-modified", fmt.Sprintf("after request %d: %s", j, msg)
+						return false
+					}
+				}
 				return true
 			}
 			if !checkPulls(0) {
-				kind = "construct-pull"
+				if kind == "overpull" {
+					kind = "construct-pull"
+				}
 				return
 			}
 			for j := 1; j <= total+4; j++ {
@@ -838,12 +1009,21 @@ func runMulti(a *acc, parts [][]int, slcJoin func(parts [][]int) []int) {
 				}
 			}
 			h.close()
+			if h.integrity != nil {
+				if msg := h.integrity(); msg != "" {
+					kind, what = "argument-modified", "after Close: "+msg
+					return
+				}
+			}
+			if h.observe != nil {
+				h.observe()
+			}
 		})
 		if pan != nil {
 			kind, what = panicKind(pan), fmt.Sprintf("panic at request %d: %s", step, panicMsg(pan))
 		}
 		if kind != "" {
-			a.fail(kind, fl.pkg, fl.op, fmt.Sprintf("%s.%s %s: %s", fl.pkg, fl.op, param, what),
+			a.fail(kind, fl.pkg, fl.op, fmt.Sprintf("%s.%s%s %s: %s", fl.pkg, fl.op, fl.via, param, what),
 				map[string]any{"parts": parts, "reference_output": want, "request": step})
 			return
 		}
@@ -856,7 +1036,8 @@ func runMulti(a *acc, parts [][]int, slcJoin func(parts [][]int) []int) {
 		a.count("triples by operation", "Join", 1)
 		var got []int
 		a.arm(total)
-		if pan := vkit.Try(func() { got = slcJoin(parts) }); pan != nil {
+		gparts, chkParts := guardSlices(parts)
+		if pan := vkit.Try(func() { got = slcJoin(gparts) }); pan != nil {
 			a.fail(panicKind(pan), "xslices", "Join", fmt.Sprintf("xslices.Join %s panicked: %s", param, panicMsg(pan)), map[string]any{"parts": parts})
 			return
 		}
@@ -864,6 +1045,11 @@ func runMulti(a *acc, parts [][]int, slcJoin func(parts [][]int) []int) {
 		if !slices.Equal(got, want) {
 			a.fail("value", "xslices", "Join", fmt.Sprintf("xslices.Join %s = %v, reference (and iterator.Join, stream.Join) %v", param, got, want),
 				map[string]any{"parts": parts, "reference_output": want, "got": got})
+			return
+		}
+		a.integ++
+		if msg := chkParts(); msg != "" {
+			a.fail("argument-modified", "xslices", "Join", fmt.Sprintf("xslices.Join %s (args and every part sub-slices with spare capacity): %s", param, msg), map[string]any{"parts": parts})
 			return
 		}
 	}
